@@ -1750,6 +1750,33 @@ func e2eFacts(f *facts) {
 		}
 	}
 	f.strs["e2e_listener_final_flush"] = ff
+	f.note["c07_accept_error_branches"] = "tcplinelistener.go run: the conditions examined when AcceptTCP fails, in order (retry, then abort unless closed by the stop request), and the errors util.IsTemporaryAcceptError names"
+	{
+		var conds []string
+		if fd := fn("input/tcplistener/tcplinelistener.go", "run", "tcpLineListener"); fd != nil {
+			inspect(fd.Body, func(n ast.Node) bool {
+				if is, ok := n.(*ast.IfStmt); ok && src(is.Cond) == "acceptErr != nil" {
+					for _, st := range is.Body.List {
+						if inner, ok := st.(*ast.IfStmt); ok {
+							conds = append(conds, src(inner.Cond))
+						}
+					}
+				}
+				return true
+			})
+		}
+		if fd := fn("util/net.go", "IsTemporaryAcceptError", ""); fd != nil {
+			inspect(fd.Body, func(n ast.Node) bool {
+				if cl, ok := n.(*ast.CompositeLit); ok {
+					for _, e := range cl.Elts {
+						conds = append(conds, src(e))
+					}
+				}
+				return true
+			})
+		}
+		f.strs["c07_accept_error_branches"] = conds
+	}
 	f.note["c07_error_condition"] = "tcpLineListener.runConnection: the only condition under which a failed read does not signal the connection closer"
 	var ec []string
 	if fd := fn("input/tcplistener/tcplinelistener.go", "runConnection", "tcpLineListener"); fd != nil {
